@@ -283,6 +283,81 @@ theorem push_WF {h : Heap} (hw : WF h) {x : Obj} {toks : List Nat} (ha : Admissi
     · exact ha.nd_refs hk
     · simp [Obj.nil]
 
+theorem npView_admissible {h : Heap} (hw : WF h) (o : Nat) (x : Obj) (toks : List Nat)
+    (hm : mkNpView h o = some (x, toks)) : Admissible h x toks := by
+  simp only [mkNpView] at hm
+  split at hm
+  next hc =>
+    simp only [Option.some.injEq, Prod.mk.injEq] at hm
+    obtain ⟨rfl, rfl⟩ := hm
+    have hr : Reach h o := contains_reachable hw (by simp at hc; simpa using hc.1)
+    -- the base of the new view: `o`, or the array `o` is itself a view of; either way it is reachable and leads to
+    -- the owner of every buffer `o` addresses
+    have hbase : Reach h (npBase h o) ∧ ∀ b ∈ (h.obj o).bufs, ∃ w, Path h (npBase h o) w ∧ b ∈ (h.obj w).owns := by
+      unfold npBase
+      split
+      next hcond =>
+        cases hrefs : (h.obj o).refs with
+        | nil =>
+          simp only [List.headD_nil]
+          exact ⟨hr, fun b hb => hw.keeps_owner o b hb⟩
+        | cons r rest =>
+          simp only [List.headD_cons]
+          have hlen := hw.nd_refs o hcond.1
+          rw [hrefs] at hlen
+          have hrest : rest = [] := by
+            cases rest with
+            | nil => rfl
+            | cons _ _ => simp at hlen
+          subst hrest
+          refine ⟨Reach.step hr (by rw [hrefs]; simp), fun b hb => ?_⟩
+          obtain ⟨w, hp, hwo⟩ := hw.keeps_owner o b hb
+          rcases hp.inv with h1 | ⟨p, hp1, hp2⟩
+          · rw [← h1, hcond.2] at hwo; cases hwo
+          · rw [hrefs] at hp1
+            simp at hp1
+            exact ⟨w, hp1 ▸ hp2, hwo⟩
+      next => exact ⟨hr, fun b hb => hw.keeps_owner o b hb⟩
+    constructor
+    · intro r hr'; simp at hr'; rw [hr']; exact hbase.1
+    · intro b hb; simp at hb
+    · simp
+    · intro b hb
+      obtain ⟨w, hp, hwo⟩ := hbase.2 b hb
+      exact Or.inr ⟨npBase h o, by simp, w, hp, hwo⟩
+    · intro _; simp
+  next => cases hm
+
+theorem view_admissible {h : Heap} (hw : WF h) (a k : Nat) (x : Obj) (toks : List Nat)
+    (hm : mkView Cfg.full h a k = some (x, toks)) : Admissible h x toks := by
+  simp only [mkView] at hm
+  split at hm
+  next hc =>
+    have hra : Reach h a := contains_reachable hw (by simp at hc; simpa using hc.1)
+    split at hm
+    next s hrefs =>
+      split at hm
+      next b hbk =>
+        simp only [Option.some.injEq, Prod.mk.injEq] at hm
+        obtain ⟨rfl, rfl⟩ := hm
+        have hrs : Reach h s := Reach.step hra (by rw [hrefs]; simp)
+        have hbs : b ∈ (h.obj s).bufs := List.mem_of_getElem? hbk
+        have hhold : Cfg.full.holdView (h.obj s).om = true := by
+          unfold Cfg.holdView; cases (h.obj s).om <;> rfl
+        constructor
+        · intro r hr'; simp [hhold] at hr'; rw [hr']; exact hrs
+        · intro b' hb'; simp at hb'
+        · simp
+        · intro b' hb'
+          simp at hb'
+          rw [hb']
+          obtain ⟨w, hp, hwo⟩ := hw.keeps_owner s b hbs
+          exact Or.inr ⟨s, by simp [hhold], w, hp, hwo⟩
+        · intro hk; simp at hk
+      next => cases hm
+    next => cases hm
+  next => cases hm
+
 /-- every creating command builds an admissible object when both `_hold_ref` calls are made -/
 theorem mkObj_admissible {h : Heap} (hw : WF h) (c : Cmd) (hna : c.excluded = false) (x : Obj) (toks : List Nat)
     (hm : mkObj Cfg.full h c = some (x, toks)) : Admissible h x toks := by
@@ -292,51 +367,11 @@ theorem mkObj_admissible {h : Heap} (hw : WF h) (c : Cmd) (hna : c.excluded = fa
     simp only [mkObj, Option.some.injEq, Prod.mk.injEq] at hm
     obtain ⟨rfl, rfl⟩ := hm
     constructor <;> simp
-  | npView o =>
-    simp only [mkObj] at hm
-    split at hm
-    next hc =>
-      simp only [Option.some.injEq, Prod.mk.injEq] at hm
-      obtain ⟨rfl, rfl⟩ := hm
-      have hr : Reach h o := contains_reachable hw (by simp at hc; simpa using hc.1)
-      -- the base of the new view: `o`, or the array `o` is itself a view of; either way it is reachable and leads to
-      -- the owner of every buffer `o` addresses
-      have hbase : Reach h (npBase h o) ∧ ∀ b ∈ (h.obj o).bufs, ∃ w, Path h (npBase h o) w ∧ b ∈ (h.obj w).owns := by
-        unfold npBase
-        split
-        next hcond =>
-          cases hrefs : (h.obj o).refs with
-          | nil =>
-            simp only [List.headD_nil]
-            exact ⟨hr, fun b hb => hw.keeps_owner o b hb⟩
-          | cons r rest =>
-            simp only [List.headD_cons]
-            have hlen := hw.nd_refs o hcond.1
-            rw [hrefs] at hlen
-            have hrest : rest = [] := by
-              cases rest with
-              | nil => rfl
-              | cons _ _ => simp at hlen
-            subst hrest
-            refine ⟨Reach.step hr (by rw [hrefs]; simp), fun b hb => ?_⟩
-            obtain ⟨w, hp, hwo⟩ := hw.keeps_owner o b hb
-            rcases hp.inv with h1 | ⟨p, hp1, hp2⟩
-            · rw [← h1, hcond.2] at hwo; cases hwo
-            · rw [hrefs] at hp1
-              simp at hp1
-              exact ⟨w, hp1 ▸ hp2, hwo⟩
-        next => exact ⟨hr, fun b hb => hw.keeps_owner o b hb⟩
-      constructor
-      · intro r hr'; simp at hr'; rw [hr']; exact hbase.1
-      · intro b hb; simp at hb
-      · simp
-      · intro b hb
-        obtain ⟨w, hp, hwo⟩ := hbase.2 b hb
-        exact Or.inr ⟨npBase h o, by simp, w, hp, hwo⟩
-      · intro _; simp
-    next => cases hm
-  | rawField a k => simp [Cmd.excluded] at hna
-  | castView r a => simp [Cmd.excluded] at hna
+  | npView o => exact npView_admissible hw o x toks (by simpa [mkObj] using hm)
+  | rawField a k =>
+    exact view_admissible hw a k x toks (by simpa [mkObj, show Cfg.full.holdOnBaseRoot = true from rfl] using hm)
+  | castView r a =>
+    exact npView_admissible hw r x toks (by simpa [mkObj, show Cfg.full.holdOnBaseRoot = true from rfl] using hm)
   | mkStorage srcs =>
     simp only [mkObj] at hm
     split at hm
@@ -404,34 +439,7 @@ theorem mkObj_admissible {h : Heap} (hw : WF h) (c : Cmd) (hna : c.excluded = fa
       · intro b hb; simp at hb
       · intro hk; simp at hk
     next => cases hm
-  | view a k =>
-    simp only [mkObj] at hm
-    split at hm
-    next hc =>
-      have hra : Reach h a := contains_reachable hw (by simp at hc; simpa using hc.1)
-      split at hm
-      next s hrefs =>
-        split at hm
-        next b hbk =>
-          simp only [Option.some.injEq, Prod.mk.injEq] at hm
-          obtain ⟨rfl, rfl⟩ := hm
-          have hrs : Reach h s := Reach.step hra (by rw [hrefs]; simp)
-          have hbs : b ∈ (h.obj s).bufs := List.mem_of_getElem? hbk
-          have hhold : Cfg.full.holdView (h.obj s).om = true := by
-            unfold Cfg.holdView; cases (h.obj s).om <;> rfl
-          constructor
-          · intro r hr'; simp [hhold] at hr'; rw [hr']; exact hrs
-          · intro b' hb'; simp at hb'
-          · simp
-          · intro b' hb'
-            simp at hb'
-            rw [hb']
-            obtain ⟨w, hp, hwo⟩ := hw.keeps_owner s b hbs
-            exact Or.inr ⟨s, by simp [hhold], w, hp, hwo⟩
-          · intro hk; simp at hk
-        next => cases hm
-      next => cases hm
-    next => cases hm
+  | view a k => exact view_admissible hw a k x toks (by simpa [mkObj] using hm)
   | alias o => simp [mkObj] at hm
   | drop o => simp [mkObj] at hm
   | finalize o => simp [mkObj] at hm
@@ -552,8 +560,8 @@ theorem step_WF {h h' : Heap} (hw : WF h) (c : Cmd) (hna : c.excluded = false)
   | mkArray s => exact hpush (.mkArray s) rfl hs
   | view a k => exact hpush (.view a k) rfl hs
   | opAliased a => simp [Cmd.excluded] at hna
-  | rawField a k => simp [Cmd.excluded] at hna
-  | castView r a => simp [Cmd.excluded] at hna
+  | rawField a k => exact hpush (.rawField a k) rfl hs
+  | castView r a => exact hpush (.castView r a) rfl hs
 
 theorem run_WF : ∀ {h h' : Heap} (cs : List Cmd), ExcludedHistory cs = false → WF h → run Cfg.full h cs = some h' → WF h'
   | h, h', [], _, hw, hr => by simp only [run, Option.some.injEq] at hr; rw [← hr]; exact hw
@@ -644,6 +652,46 @@ theorem push_Shape {h : Heap} (hs : Shape h) {x : Obj} {toks : List Nat} (hx : S
       exact ⟨hl ▸ h1, by rw [obj_of_lt h s x toks h1]; exact h2⟩
     · simp [Obj.nil] at hr
 
+theorem npView_shapeOk {h : Heap} (o : Nat) (x : Obj) (toks : List Nat)
+    (hm : mkNpView h o = some (x, toks)) : ShapeOk h x := by
+  simp only [mkNpView] at hm
+  split at hm
+  next =>
+    simp only [Option.some.injEq, Prod.mk.injEq] at hm
+    obtain ⟨rfl, rfl⟩ := hm
+    constructor <;> simp
+  next => cases hm
+
+theorem view_shapeOk {h : Heap} (hw : WF h) (hsh : Shape h) (a k : Nat) (x : Obj) (toks : List Nat)
+    (hm : mkView Cfg.full h a k = some (x, toks)) : ShapeOk h x := by
+  simp only [mkView] at hm
+  split at hm
+  next hc =>
+    have hra : Reach h a := contains_reachable hw (by simp at hc; simpa using hc.1)
+    have hka : (h.obj a).kind = .array := by simp at hc; exact hc.2
+    split at hm
+    next s hrefs =>
+      split at hm
+      next b hbk =>
+        simp only [Option.some.injEq, Prod.mk.injEq] at hm
+        obtain ⟨rfl, rfl⟩ := hm
+        have hrs : Reach h s := Reach.step hra (by rw [hrefs]; simp)
+        have hbs : b ∈ (h.obj s).bufs := List.mem_of_getElem? hbk
+        have hhold : Cfg.full.holdView (h.obj s).om = true := by
+          unfold Cfg.holdView; cases (h.obj s).om <;> rfl
+        constructor
+        · intro _
+          refine ⟨s, by simp [hhold], Reach.lt hw hrs, ?_, ?_⟩
+          · exact (hsh.array_of a hka s hrefs).2
+          · intro b' hb'; simp at hb'; rw [hb']; exact hbs
+        · intro hk; simp at hk
+        · intro hk; simp at hk
+        · intro b' hb'; simp at hb'
+        · intro hk; simp at hk
+      next => cases hm
+    next => cases hm
+  next => cases hm
+
 /-- every creating command (the aliasing one included) builds an object of the right shape when every edge is made -/
 theorem mkObj_shapeOk {h : Heap} (hw : WF h) (hsh : Shape h) (c : Cmd) (x : Obj) (toks : List Nat)
     (hm : mkObj Cfg.full h c = some (x, toks)) : ShapeOk h x := by
@@ -652,14 +700,7 @@ theorem mkObj_shapeOk {h : Heap} (hw : WF h) (hsh : Shape h) (c : Cmd) (x : Obj)
     simp only [mkObj, Option.some.injEq, Prod.mk.injEq] at hm
     obtain ⟨rfl, rfl⟩ := hm
     constructor <;> simp
-  | npView o =>
-    simp only [mkObj] at hm
-    split at hm
-    next =>
-      simp only [Option.some.injEq, Prod.mk.injEq] at hm
-      obtain ⟨rfl, rfl⟩ := hm
-      constructor <;> simp
-    next => cases hm
+  | npView o => exact npView_shapeOk o x toks (by simpa [mkObj] using hm)
   | mkStorage srcs =>
     simp only [mkObj] at hm
     split at hm
@@ -722,59 +763,11 @@ theorem mkObj_shapeOk {h : Heap} (hw : WF h) (hsh : Shape h) (c : Cmd) (x : Obj)
         rw [← hs']
         exact ⟨Reach.lt hw hr, hk⟩
     next => cases hm
-  | view a k =>
-    simp only [mkObj] at hm
-    split at hm
-    next hc =>
-      have hra : Reach h a := contains_reachable hw (by simp at hc; simpa using hc.1)
-      have hka : (h.obj a).kind = .array := by simp at hc; exact hc.2
-      split at hm
-      next s hrefs =>
-        split at hm
-        next b hbk =>
-          simp only [Option.some.injEq, Prod.mk.injEq] at hm
-          obtain ⟨rfl, rfl⟩ := hm
-          have hrs : Reach h s := Reach.step hra (by rw [hrefs]; simp)
-          have hbs : b ∈ (h.obj s).bufs := List.mem_of_getElem? hbk
-          have hhold : Cfg.full.holdView (h.obj s).om = true := by
-            unfold Cfg.holdView; cases (h.obj s).om <;> rfl
-          constructor
-          · intro _
-            refine ⟨s, by simp [hhold], Reach.lt hw hrs, ?_, ?_⟩
-            · exact (hsh.array_of a hka s hrefs).2
-            · intro b' hb'; simp at hb'; rw [hb']; exact hbs
-          · intro hk; simp at hk
-          · intro hk; simp at hk
-          · intro b' hb'; simp at hb'
-          · intro hk; simp at hk
-        next => cases hm
-      next => cases hm
-    next => cases hm
+  | view a k => exact view_shapeOk hw hsh a k x toks (by simpa [mkObj] using hm)
   | rawField a k =>
-    simp only [mkObj] at hm
-    split at hm
-    next =>
-      split at hm
-      next s _ =>
-        split at hm
-        next b _ =>
-          simp only [Option.some.injEq, Prod.mk.injEq] at hm
-          obtain ⟨rfl, rfl⟩ := hm
-          constructor <;> simp
-        next => cases hm
-      next => cases hm
-    next => cases hm
+    exact view_shapeOk hw hsh a k x toks (by simpa [mkObj, show Cfg.full.holdOnBaseRoot = true from rfl] using hm)
   | castView r a =>
-    simp only [mkObj] at hm
-    split at hm
-    next =>
-      split at hm
-      next s _ =>
-        simp only [Option.some.injEq, Prod.mk.injEq] at hm
-        obtain ⟨rfl, rfl⟩ := hm
-        constructor <;> simp
-      next => cases hm
-    next => cases hm
+    exact npView_shapeOk r x toks (by simpa [mkObj, show Cfg.full.holdOnBaseRoot = true from rfl] using hm)
   | alias o => simp [mkObj] at hm
   | drop o => simp [mkObj] at hm
   | finalize o => simp [mkObj] at hm
